@@ -30,7 +30,7 @@ def corpus():
 
 
 def generate(rng, tier):
-    n = 300 if tier == "quick" else 4000
+    n = 300 if tier == "quick" else 12000
     for _ in range(n):
         root = rng.choice(["cube", "cube", "cube", "seq", "coll"])
         nd = rng.choice([1, 2, 2, 3, 3, 4]) if root == "cube" else rng.choice([2, 3])
@@ -98,6 +98,9 @@ def snap_cube(c):
          "mask": None if c.mask is None else np.asarray(c.mask).tobytes().hex(),
          "unc": None if c.uncertainty is None else [type(c.uncertainty).__name__, np.asarray(c.uncertainty.array).tobytes().hex()],
          "meta": json.dumps(c.meta, sort_keys=True, default=repr)}
+    # the coordinate holders must stay attached to this very cube (a derived cube that takes them
+    # over silently changes what later calls on the source do)
+    s["links"] = [getattr(c.extra_coords, "_ndcube", c) is c, getattr(c.global_coords, "_ndcube", c) is c]
     els = C.all_indices(data.shape, 6, random.Random(0)) if data.size else []
     ll = c.wcs.low_level_wcs
     try:
